@@ -254,6 +254,9 @@ func C01(c *core.Ctx) {
 	}
 
 	c01Close(c, sets)
+	c01RemoveForwarded(c, "R9", calls, sets)
+	// R3 continued: below the driver interface the request is addressed {SEID, id} as well
+	gnlOidForm(c, "R3")
 	handlerDispatch(c, "R1", nil)
 	c01EndPaths(c, "R6", true)
 	// R8: periodic queries are data-plane operations too: a URR is registered for them once (by Create URR)
@@ -680,6 +683,7 @@ func C05(c *core.Ctx) {
 			"Driver."+k+" is tagged with the receiver session's own UP SEID (LocalID)")
 	}
 	c.Floor("R1", len(calls), 16, "driver rule calls")
+	gnlOidForm(c, "R1")
 
 	// R2 handlers
 	sessT := p.Named(pkgPfcp, "Sess")
@@ -1097,4 +1101,150 @@ func handlerDispatch(c *core.Ctx, rule string, kinds map[string]bool) {
 		}
 	}
 	c.Floor(rule, n, 5, "rule IEs dispatched from request fields")
+}
+
+// R9 (C01), shared: a removal request for a known id always reaches the data plane.  Between the entry of a
+// Sess.Remove<K> method and its Driver.Remove<K> call, a branch may leave the method only because the request
+// cannot be decoded (an error of a library accessor) or because the id is not in the session's set; any other
+// reason (a mark, a counter, a cached state) lets a rule stay installed that the session still records — and since
+// Close() withdraws the rules through the same methods, it would stay installed after the session ended.
+func c01RemoveForwarded(c *core.Ctx, rule string, calls []drvCall, sets map[string]*types.Var) {
+	p := c.P
+	for _, d := range calls {
+		if d.verb != "Remove" {
+			continue
+		}
+		set := sets[d.kind]
+		if set == nil {
+			continue
+		}
+		fn := d.fn
+		recv := core.Recv(fn)
+		cb := d.call.Block()
+		reach := map[*ssa.BasicBlock]bool{}
+		var walk func(b *ssa.BasicBlock)
+		walk = func(b *ssa.BasicBlock) {
+			if reach[b] {
+				return
+			}
+			reach[b] = true
+			for _, pr := range b.Preds {
+				walk(pr)
+			}
+		}
+		for _, pr := range cb.Preds {
+			walk(pr)
+		}
+		bad := ""
+		var badPos token.Pos
+		for _, b := range fn.Blocks {
+			if !reach[b] || b == cb && !blockInLoop(cb) {
+				continue
+			}
+			ifi, ok := b.Instrs[len(b.Instrs)-1].(*ssa.If)
+			if !ok {
+				continue
+			}
+			exits := false
+			for _, s := range b.Succs {
+				if returnAvoiding(s, func(x *ssa.BasicBlock) bool { return x == cb }) != nil {
+					exits = true
+				}
+			}
+			if !exits {
+				continue
+			}
+			cond := ifi.Cond
+			for {
+				if u, ok := cond.(*ssa.UnOp); ok && u.Op == token.NOT {
+					cond = u.X
+					continue
+				}
+				break
+			}
+			allowed := false
+			if x, _, ok := core.NilCmp(cond); ok {
+				x = core.Unwrap(x)
+				if ex, ok := x.(*ssa.Extract); ok {
+					if cl, ok := ex.Tuple.(*ssa.Call); ok {
+						if f := core.StaticFn(cl); f == nil || !p.IsOwnFn(f) {
+							allowed = true // decode error of a library accessor
+						}
+					}
+				}
+			}
+			if ex, ok := cond.(*ssa.Extract); ok && ex.Index == 1 {
+				if lk, ok := ex.Tuple.(*ssa.Lookup); ok && lk.CommaOk && core.IsPath(lk.X, recv, set.Name()) {
+					allowed = true
+				}
+			}
+			if !allowed && bad == "" {
+				bad = "the method can return before Driver.Remove" + d.kind + " under a condition that is neither a decode error nor 'id not in " + set.Name() + "'"
+				badPos = ifi.Cond.Pos()
+				if !badPos.IsValid() {
+					badPos = d.call.Pos()
+				}
+			}
+		}
+		pos := d.call.Pos()
+		if bad != "" {
+			pos = badPos
+		}
+		c.Check(rule, "remove-forwarded:"+core.FnName(fn)+":"+d.kind, pos, bad == "",
+			"a Remove "+d.kind+" for an id the session records always reaches Driver.Remove"+d.kind+map[bool]string{true: "", false: " — " + bad}[bad == ""])
+	}
+}
+
+// gnlOidForm: go-upf addresses every rule in the data plane as OID{SEID, id}.  go-gtp5gnl also exports positional
+// forms of its requests (CreatePDR(c, link, pdrid, attrs), GetReport(c, link, urrid, seid), ...) that carry no SEID
+// or assemble the pair in the library's own order; a request sent through one of them is not tagged with the
+// session's SEID in go-upf's convention, so it reaches another session's rule.  Every own call of a go-gtp5gnl
+// function that takes the link and identifies a rule therefore passes an OID (or a list of them).
+func gnlOidForm(c *core.Ctx, rule string) {
+	p := c.P
+	n := 0
+	seen := map[string]int{}
+	for _, fn := range p.OwnFuncs() {
+		core.Instrs(fn, func(in ssa.Instruction) {
+			ci, ok := in.(ssa.CallInstruction)
+			if !ok {
+				return
+			}
+			f := core.Callee(ci)
+			if f == nil || f.Pkg() == nil || f.Pkg().Path() != core.PkgGtp5gnl {
+				return
+			}
+			sig := f.Type().(*types.Signature)
+			hasLink, hasOID, hasInt := false, false, false
+			for i := 0; i < sig.Params().Len(); i++ {
+				t := sig.Params().At(i).Type()
+				if pt, ok := t.(*types.Pointer); ok {
+					if nn, ok := pt.Elem().(*types.Named); ok && nn.Obj().Name() == "Link" {
+						hasLink = true
+					}
+				}
+				if sl, ok := t.(*types.Slice); ok {
+					t = sl.Elem()
+				}
+				if nn, ok := t.(*types.Named); ok && nn.Obj().Name() == "OID" {
+					hasOID = true
+				}
+				if bt, ok := t.Underlying().(*types.Basic); ok && bt.Info()&types.IsInteger != 0 {
+					hasInt = true
+				}
+			}
+			if !hasLink || (!hasOID && !hasInt) {
+				return
+			}
+			n++
+			k := core.FnName(fn) + ":" + f.Name()
+			seen[k]++
+			if seen[k] > 1 {
+				k += fmt.Sprintf("#%d", seen[k])
+			}
+			c.Check(rule, "oid-form:"+k, ci.Pos(), hasOID, "the data-plane request identifies its rule by an OID {SEID, id} built by go-upf (gtp5gnl."+f.Name()+
+				map[bool]string{true: "", false: " takes bare numbers: no SEID, or the pair in the library's order"}[hasOID]+")")
+		})
+	}
+	c.Floor(rule, n, 10, "go-gtp5gnl requests that identify a rule")
 }
